@@ -163,7 +163,7 @@ func TestVerifC12(t *testing.T) {
 		return
 	}
 	st := newVStats()
-	deadline := rep.Deadline(75*time.Second, 18*time.Minute)
+	deadline := rep.Deadline(85*time.Second, 18*time.Minute)
 	c := &vC12{rep: rep, st: st, sink: rep.Violation, seen: map[[16]byte]struct{}{}, deadline: deadline}
 
 	smallSpecs, wideSpecs := vC12Blocks(rep.Tier)
